@@ -241,6 +241,55 @@ def fact_vkey_split_last(repo):
         return None
 
 
+PAT_SPLIT = r"((?P<cluster>[^#]*)::)?(?P<module>[^#]*):(?P<function>[^#]*)(#(?P<version>.*))?"
+PAT_GREEDY = r"((?P<cluster>.*)::)?(?P<module>.*):(?P<function>[^#]*)(#(?P<version>.*))?"
+
+
+def fact_qname_pattern(repo):
+    """the pattern literal passed to re.match in FunctionReference.parse_qualified_name"""
+    try:
+        fn = _cls_fn(repo, "reference.py", "FunctionReference", "parse_qualified_name")
+        lits = [n.value for n in ast.walk(fn) if isinstance(n, ast.Constant) and isinstance(n.value, str) and "(?P<" in n.value]
+        if lits == [PAT_SPLIT]:
+            return True
+        if lits == [PAT_GREEDY]:
+            return False
+        return None
+    except Exception:
+        return None
+
+
+def fact_qname_prefix_first(repo):
+    """FunctionReference.__init__: the cluster prefix (`cluster_name + "::" + ...`) is added before the
+    version (`"#" + version`) is appended"""
+    try:
+        fn = _cls_fn(repo, "reference.py", "FunctionReference", "__init__")
+        pre = ver = None
+        for i, st in enumerate(fn.body):
+            src = ast.dump(st)
+            if isinstance(st, ast.If) and "Constant(value='::')" in src and "Add()" in src and pre is None:
+                pre = i
+            if isinstance(st, ast.If) and "Constant(value='#')" in src and ver is None:
+                ver = i
+        if pre is None or ver is None:
+            return None
+        return pre < ver
+    except Exception:
+        return None
+
+
+def fact_ext_allows_default_cluster(repo):
+    """UnboundExternalMementoFunction.__init__ does not assert that a cluster name is given"""
+    try:
+        fn = _cls_fn(repo, "external.py", "UnboundExternalMementoFunction", "__init__")
+        for n in ast.walk(fn):
+            if isinstance(n, ast.Assert) and "cluster_name" in ast.dump(n.test):
+                return False
+        return True
+    except Exception:
+        return None
+
+
 FACTS = []
 
 
@@ -294,6 +343,21 @@ def _f8(repo):
 @fact("vkey_split_last", "option bool")
 def _f9(repo):
     return _opt_bool(fact_vkey_split_last(repo))
+
+
+@fact("qname_split_pattern", "option bool")
+def _f10(repo):
+    return _opt_bool(fact_qname_pattern(repo))
+
+
+@fact("qname_prefix_first", "option bool")
+def _f11(repo):
+    return _opt_bool(fact_qname_prefix_first(repo))
+
+
+@fact("ext_allows_default_cluster", "option bool")
+def _f12(repo):
+    return _opt_bool(fact_ext_allows_default_cluster(repo))
 
 
 def generate(repo):
